@@ -215,15 +215,18 @@ def inverse_topology(outer, update, topology, inverse=None, multi_updates=True):
         elif key in update:
             value = update[key]
             if isinstance(path, dict):
+                path = path.copy()
                 if '_path' in path:
-                    path = path.copy()
                     inner = normalize_path(outer + path.pop('_path'))
-
-                    for update_key in update[key].keys():
-                        if update_key not in path and '*' not in path:
-                            path[update_key] = (update_key,)
                 else:
                     inner = outer
+
+                # variables the dictionary does not list keep their
+                # default place, which is where the store reads them
+                if isinstance(value, dict):
+                    for update_key in value.keys():
+                        if update_key not in path and '*' not in path:
+                            path[update_key] = (update_key,)
 
                 inverse = inverse_topology(
                     inner,
